@@ -316,7 +316,9 @@ Inductive delivers_evicting (s : state) : event -> ekind -> Prop :=
 | de_join : forall rid k g rest, take_first (awaits (GJoin rid)) (gens s) = Some (g, rest) -> delivers_evicting s (EJoin rid (JFail k)) k
 | de_sync : forall rid k g rest, take_first (awaits (GSync rid)) (gens s) = Some (g, rest) -> delivers_evicting s (ESync rid (SFail k)) k
 | de_hb : forall rid k, hb_req s = Some rid -> hb_running s = true -> delivers_evicting s (EHbReply rid (RFail k)) k
-| de_cfail : forall cid k, can_fail cid s = true -> delivers_evicting s (ECFail cid k) k.
+| de_cfail : forall cid k, can_fail cid s = true -> delivers_evicting s (ECFail cid k) k
+| de_meta : forall rid k g rest, take_first (awaits (GMeta rid)) (gens s) = Some (g, rest) -> delivers_evicting s (EMeta rid (RFail k)) k
+| de_parts : forall rid k g rest, take_first (awaits (GParts rid)) (gens s) = Some (g, rest) -> delivers_evicting s (EParts rid (PFail k)) k.
 
 Lemma map_cid_fail : forall cid l c, In c l -> In (c_fail cid c) (map (c_fail cid) l) /\ c_id (c_fail cid c) = c_id c.
 Proof. intros cid l c H. split; [apply in_map; auto|]. unfold c_fail. destruct (c_id c =? cid); reflexivity. Qed.
@@ -326,7 +328,7 @@ Lemma evicted_step : forall grp evs e k, let s := state_after grp evs in
   consumers (fst (step s e)) = [] /\ (forall c, In c (consumers s) -> In (OStopC (c_id c)) (snd (step s e))).
 Proof.
   intros grp evs e k s D Ek. pose proof (j1 _ _ (i_core _ (reachable_Inv grp evs))) as NG. fold s in NG. clearbody s.
-  destruct D as [rid k g rest T|rid k g rest T|rid k Hq Hr|cid k CF].
+  destruct D as [rid k g rest T|rid k g rest T|rid k Hq Hr|cid k CF|rid k g rest T|rid k g rest T].
   - rewrite (join_fail_step _ _ _ _ _ T). cbn [fst snd].
     destruct (evicted_local k (set_gens rest s) Ek) as (A & B & _); [destruct s; exact NG|].
     split; [destruct (fst (rejoin_after_error k (set_gens rest s))); exact A|]. intros c Hc. apply B. destruct s; exact Hc.
@@ -346,4 +348,52 @@ Proof.
                 (forall c, In c (consumers s) -> In (OStopC (c_id c)) (snd (rejoin_after_error k s1)))).
     { split; [exact A|]. intros c Hc. destruct (map_cid_fail cid _ _ Hc) as [X Y]. rewrite <- Y. apply B. rewrite C1. exact X. }
     clearbody s1. destruct k; try discriminate; exact R.
+  - assert (K : is_kafka k = true) by (destruct k; try discriminate; reflexivity).
+    rewrite (meta_fail_step _ _ _ _ _ T K).
+    destruct (evicted_local k (set_rejoin_d None (set_gens rest s)) Ek) as (A & B & _); [destruct s; exact NG|].
+    split; [exact A|]. intros c Hc. apply B. destruct s; exact Hc.
+  - assert (K : is_kafka k = true) by (destruct k; try discriminate; reflexivity).
+    rewrite (parts_fail_step _ _ _ _ _ T K).
+    destruct (evicted_local k (set_rejoin_d None (set_gens rest s)) Ek) as (A & B & _); [destruct s; exact NG|].
+    split; [exact A|]. intros c Hc. apply B. destruct s; exact Hc.
+Qed.
+
+(* ---------- "starting from the group's committed position" ---------- *)
+Lemma start_committed : forall o, hd 0 (enc_out o) = 10 -> nth 6 (enc_out o) 0 = 1 /\ length (enc_out o) = 7%nat.
+Proof. intros o. destruct o; cbn; intros H; try discriminate; auto. Qed.
+
+(* ---------- "shut down - committing its progress": the join's prepare uses shutdown(), never stop() ---------- *)
+Lemma prepare_shuts_down : forall s rid g rest, take_first (awaits (GMeta rid)) (gens s) = Some (g, rest) -> stop_pend s = false ->
+  is_group s = true -> consumers s <> [] ->
+  snd (step s (EMeta rid ROk)) = map (fun c => OShutC (c_id c)) (consumers s) /\
+  consumers (fst (step s (EMeta rid ROk))) = [] /\
+  gens (fst (step s (EMeta rid ROk))) = mkGen (g_id g) (GPrepare (map (fun c => mkSh c false) (consumers s))) :: rest.
+Proof.
+  intros s rid g rest T SP G C. cbn [step]. unfold on_meta, with_gen. rewrite T.
+  replace (stop_pend (set_gens rest s)) with false by (rewrite stop_pend_set_gens; auto).
+  unfold prepare_and_join, begin_shutdown, add_gen. ds s. cbn in G, C. subst. destruct cs as [|c cs']; [congruence|]. cbn. auto.
+Qed.
+
+Lemma graceful_shutdown_completes : forall s gid l rest cid, gens s = mkGen gid (GPrepare l) :: rest -> sh_has cid l = true ->
+  let o := snd (step s (ECShut cid true)) in
+  (forall x, In x o -> exists rid m, x = OJoin rid m) /\ (o <> [] -> sh_all_done (sh_mark_done cid l) = true /\ stop_pend s = false).
+Proof.
+  intros s gid l rest cid G Hh. cbn [step]. unfold on_cshut. rewrite G. cbn [take_first gen_list g_ph]. rewrite Hh. cbn [gen_list g_ph g_id].
+  destruct (sh_all_done (sh_mark_done cid l)) eqn:AD; cbv zeta; cbn [snd].
+  - unfold after_prepare. rewrite stop_pend_set_gens. destruct (stop_pend s) eqn:SP; cbn [snd].
+    + split; [intros x []|intros X; exfalso; apply X; reflexivity].
+    + split; [|auto]. intros x H. apply send_join_out in H. eauto.
+  - split; [intros x []|intros X; exfalso; apply X; reflexivity].
+Qed.
+
+(* ---------- a timed-out COORDINATOR LOOKUP is not an eviction: nothing is stopped, the lookup is retried; the consumers are shut
+   down gracefully by the prepare of the join that eventually follows ---------- *)
+Lemma lookup_timeout_keeps_consumers : forall s rid g rest k, take_first (awaits (GLookup rid)) (gens s) = Some (g, rest) -> is_kafka k = true ->
+  consumers (fst (step s (ELookup rid (LFail k)))) = consumers s /\
+  snd (step s (ELookup rid (LFail k))) = [OSched TCoordRetry (lookup_delay (LFail k)) (next_timer s)].
+Proof.
+  intros s rid g rest k T K. split.
+  - cbn [step]. unfold on_lookup, with_gen. rewrite T. destruct k; try discriminate;
+      rewrite seq_fst; unfold coord_retry, new_timer, gen_end, upd; ds s; reflexivity.
+  - destruct (lookup_failure_retried s rid (LFail k) g rest T K) as [A _]. exact A.
 Qed.
